@@ -35,8 +35,11 @@ impl Scanner {
     }
     /// Returns the name of the first pattern found in `hay`.
     pub fn scan(&self, hay: &[u8]) -> Option<&str> {
+        // hexadecimal forms are matched whatever the case of each digit
+        let lower = hay.to_ascii_lowercase();
         for (n, p) in &self.patterns {
-            if p.len() <= hay.len() && find(hay, p) {
+            let h: &[u8] = if n.ends_with("/hex") { &lower } else { hay };
+            if p.len() <= h.len() && find(h, p) {
                 return Some(n);
             }
         }
